@@ -1654,6 +1654,20 @@ def _lname(x):
     return x
 
 
+def _component(e, transparent=True, depth=0):
+    """`S { a: x, .. }.a` is x (a struct literal built earlier and read back, e.g. through a spliced helper): resolved
+    structurally, so that a projection of the component resolves in turn"""
+    x = strip(e, transparent)
+    if x[0] == 'field' and depth < 6:
+        b0 = strip(_component(x[1], transparent, depth + 1), transparent)
+        if b0[0] == 'aggr' and len(b0) > 3 and b0[3] and len(b0[3]) == len(b0[2]):
+            short_ = [str(n_).rsplit('.', 1)[-1] for n_ in b0[3]]
+            nm = str(x[2]).rsplit('.', 1)[-1]
+            if nm in short_:
+                return b0[2][short_.index(nm)]
+    return e
+
+
 def render(e, transparent=True, depth=0):
     """Canonical, line-number-free text of an expression (used in keys and reports)."""
     if depth > 25:
@@ -1673,9 +1687,11 @@ def render(e, transparent=True, depth=0):
     if k == 'var':
         return '$' + str(e[2])
     if k == 'field':
-        b0 = strip(e[1], transparent)
-        if not is_place and b0[0] == 'aggr' and len(b0) > 3 and b0[3] and len(b0[3]) == len(b0[2]) and e[2] in b0[3]:
-            return r(b0[2][list(b0[3]).index(e[2])])          # a component of a struct literal built earlier: the component itself
+        b0 = strip(_component(e[1], transparent), transparent)
+        if not is_place and b0[0] == 'aggr' and len(b0) > 3 and b0[3] and len(b0[3]) == len(b0[2]):
+            short_ = [str(x).rsplit('.', 1)[-1] for x in b0[3]]
+            if str(e[2]).rsplit('.', 1)[-1] in short_:
+                return r(b0[2][short_.index(str(e[2]).rsplit('.', 1)[-1])])          # a component of a struct literal built earlier: the component itself
         return '%s.%s' % (r(e[1]), e[2])
     if k == 'downcast':
         return '%s as %s' % (r(e[1]), e[2])
@@ -1869,9 +1885,13 @@ class Facts:
         if not complete:
             raise AnchorLost('fact base %s is truncated' % path)
         if splice:
-            from .inline import splice_new_helpers, lower_primitive_operator_calls
+            from .inline import splice_new_helpers, lower_primitive_operator_calls, resolve_into_calls
             self.lowered_ops = lower_primitive_operator_calls(self, Body)
+            self.into_calls = resolve_into_calls(self, Body)
             self.splice_report = splice_new_helpers(self, Body)
+            if resolve_into_calls(self, Body):
+                # `.into()` inside a spliced generic helper became a direct call of a From impl: splice that one, too
+                self.splice_report = list(self.splice_report) + list(splice_new_helpers(self, Body))
             from .inline import desugar_table_searches
             self.table_report = desugar_table_searches(self, Body)
             for hp, cs in self.splice_report:
